@@ -606,14 +606,20 @@ class Mir:
                 out.append(d)
         return out
 
-    def calls(self, pred=None):
+    def calls(self, pred=None, cleanup=False):
+        """call terminators of the normal (non-unwind) blocks"""
         for b in self.blocks:
+            if b.cleanup and not cleanup:
+                continue
             t = b.term
             if t.kind == "call" and (pred is None or pred(t.callee)):
                 yield b.idx, t
 
-    def stmts(self):
+    def stmts(self, cleanup=False):
+        """statements of the normal (non-unwind) blocks"""
         for b in self.blocks:
+            if b.cleanup and not cleanup:
+                continue
             for i, s in enumerate(b.stmts):
                 yield b.idx, i, s
 
